@@ -35,6 +35,35 @@ def gacc(f, names=GUARDED):
     return [e for e in f.all_events() if e.kind == "access" and e.node["k"] == "var" and e.node.get("sc") == "global" and e.node["n"] in names]
 
 
+def retry_options(R, th):
+    """LAUNCH/retry-keeps-the-options: the second attempt (without the cpu pin) is the first attempt's request minus the pin:
+    its options are a whole copy of the caller's options in which only cpu_id is overwritten - join strategy, stack size and
+    name stay what was asked for (a managed thread relaunched as a manual one is not counted, join-all returns while it runs)."""
+    n = 0
+    for f in th.values():
+        for e in f.calls():
+            c = e.node.get("callee") or ""
+            if not (c == "aws_thread_launch" or ("launch" in c and c in th)) or len(e.node.get("a", [])) < 4:
+                continue
+            a3 = RU.strip_addr(f, RU.arg(f, e.node, 3))
+            if a3 is None or a3["k"] != "var" or a3.get("sc") != "local":
+                continue
+            n += 1
+            vn = a3["n"]
+            init = None
+            for d in f.all_events():
+                if d.kind == "decl":
+                    for v in d.node["vars"]:
+                        if v["n"] == vn and v.get("init") is not None:
+                            init = RU.uncast(f, v["init"])
+            pnames = {p_["n"] for p_ in f.params if f.unit.types[p_["t"]].get("rec") == "aws_thread_options"}
+            whole = init is not None and init["k"] == "un" and init["op"] == "deref" and (f.d(init["a"][0]) or {}).get("k") == "var" and f.canon(f.d(init["a"][0])["n"]) in pnames | {f.d(init["a"][0])["n"]} & pnames or (init is not None and f.show(init).lstrip("*(").rstrip(")") in pnames)
+            stores = sorted({x.node["f"] for x in f.field_accesses(rec="aws_thread_options", modes=("w", "rw")) if f.show(x.node["a"][0]) == vn})
+            R.check(bool(whole) and set(stores) <= {"cpu_id"}, "LAUNCH", "retry-keeps-the-options", where(f, e), "the retry's options are `*options` with only cpu_id changed",
+                    "the options of the second launch attempt are initialised from %s and then get %s written: what the caller asked for (join strategy, stack size, name) is not all carried over - a managed thread is relaunched unmanaged, uncounted" % (f.show(init) if init is not None else "nothing", stores))
+    R.require(n >= 1, "the relaunch without the cpu pin (a launch call handed the address of a local options object) was not found")
+
+
 def analyse(ctx, replace=None, only=None):
     R = ctx.R
     P = ctx.program([TH, SH, "source/common.c"], "ship", replace=replace)
@@ -126,6 +155,7 @@ def analyse(ctx, replace=None, only=None):
             R.check(okw, "LAUNCH", "launch-returns-the-attempt", "%s()" % lf.name, "aws_thread_launch returns the result of %s on every path" % cands[0].name)
             lf = cands[0]
     launch(R, lf)
+    retry_options(R, th)
     ownership_and_init(R, P, th, allf)
     # wrapper destroy: name destroyed, then the wrapper released, nothing after
     d = th["s_thread_wrapper_destroy"]
@@ -697,6 +727,7 @@ def ownership_and_init(R, P, th, allf):
 
 
 MUTANTS = [
+    {"name": "retry-starts-from-the-default-options", "file": "source/posix/thread.c", "expect": "LAUNCH", "old": "            struct aws_thread_options new_options = *options;\n            new_options.cpu_id = -1;", "new": "            struct aws_thread_options new_options = *aws_default_thread_options();\n            new_options.stack_size = options->stack_size;\n            new_options.name = options->name;"},
     {"name": "current-wrapper-not-thread-local", "file": "source/posix/thread.c", "expect": "THREAD-FN", "old": "static AWS_THREAD_LOCAL struct thread_wrapper *tl_wrapper = NULL;", "new": "static struct thread_wrapper *tl_wrapper = NULL;"},
     {"name": "launcher-writes-wrapper-after-create", "file": "source/posix/thread.c", "expect": "LAUNCH", "old": "    if (is_managed_thread) {\n        aws_thread_clean_up(thread);", "new": "    if (is_managed_thread) {\n        wrapper->thread_copy.thread_id = thread->thread_id;\n        aws_thread_clean_up(thread);"},
     {"name": "wrapper-destroy-forgets-name", "file": TH, "expect": "LAUNCH", "old": "    aws_string_destroy(wrapper->name);\n    aws_mem_release(wrapper->allocator, wrapper);", "new": "    aws_mem_release(wrapper->allocator, wrapper);"},
